@@ -22,6 +22,9 @@ import itertools
 import math
 from hashlib import sha3_256
 
+from ipv8.attestation.identity.database import IdentityDatabase
+from ipv8.attestation.identity.manager import PseudonymManager
+from ipv8.attestation.identity.metadata import Metadata
 from ipv8.attestation.tokentree.token import Token
 from ipv8.attestation.tokentree.tree import TokenTree
 
@@ -115,6 +118,14 @@ class Material:
         self.dump = scratch.serialize_public()       # a genuine public serialisation (parents first)
         self._extras: dict = {}
         self._views: dict = {"pub": self.pub, "secret": self.sk}
+        self._md = None
+
+    @property
+    def dummy_md(self):  # noqa: ANN201
+        """Owner-signed metadata that points at no token: add_credential stores the token, no credential is formed."""
+        if self._md is None:
+            self._md = Metadata(b"\x00" * 32, b"{}", self.sk)
+        return self._md
 
     def view_key(self, view: str):  # noqa: ANN201
         """
@@ -680,6 +691,219 @@ def evaluate_bytes(scn: dict, mutation: list) -> dict:
 
 
 # ------------------------------------------------------------------------------------------------
+# persistence family: the same offers through PseudonymManager.add_credential on a real IdentityDatabase, and a
+# fresh PseudonymManager on the same database after every arrival
+# ------------------------------------------------------------------------------------------------
+
+def evaluate_persist(scn: dict, order: list, memo: dict | None = None) -> dict:
+    mat, items = scenario_items(scn)
+    offered = [items[i] for i in order]
+    cap = scn["cap"]
+    name_of: dict = {}
+    cls_of: dict = {}
+    for it in items:
+        h = ref.token_hash(*it.triple)
+        name_of.setdefault(h, it.label)
+        cls_of.setdefault(h, it.cls)
+    pre = Prefixes(mat, offered)
+    labels = [o.label for o in offered]
+    head = f"tree {shape_str(scn['parents'])}, add_credential on a shared IdentityDatabase, waiting area {cap}: "
+    viol: list = []
+    trace: list = []
+    waited = 0
+    failed = incomplete = False          # safety findings and completeness findings are reported independently
+    db = IdentityDatabase(":memory:")
+    db.open()
+    try:
+        pm = PseudonymManager(db, public_key=mat.pub)
+        pm.tree.unchained_max_size = cap
+        for k, it in enumerate(offered):
+            tok = make_token(it, mat)
+            before_wait = len(pm.tree.unchained)
+            try:
+                pm.add_credential(tok, mat.dummy_md)
+            except Exception as e:  # noqa: BLE001
+                viol.append((f"exception:add_credential:{type(e).__name__}:{it.cls}",
+                             head + f"add_credential({it.label}) after {labels[:k]} raised {type(e).__name__}: {e}",
+                             order[:k + 1]))
+            waited += len(pm.tree.unchained) > before_wait
+            exp = pre.steps[k]
+            again = PseudonymManager(db, public_key=mat.pub)        # "restart": the untouched loader reads the rows
+            stored = again.tree.elements
+            have = set(stored.keys())
+            trace.append((len(pm.tree.elements), len(pm.tree.unchained), len(have)))
+            if failed:
+                continue
+            hist, pfx = labels[:k + 1], order[:k + 1]
+            if any(k_ != _th(t) for k_, t in stored.items()):
+                viol.append(("elements-key-mismatch", head + f"after {hist} and a reload", pfx))
+                failed = True
+            for h in sorted(have - exp.contained):
+                reason = ("never-offered" if h not in exp.hashes else
+                          "bad-signature" if h not in exp.valid else "parent-not-contained")
+                viol.append((f"persisted-tree-holds-unentitled:{cls_of.get(h, 'unknown')}:{reason}",
+                             head + f"after offering {hist}, a fresh PseudonymManager on the same database reports "
+                             f"{name_of.get(h, h.hex()[:8])} ({reason}) in tree.elements; entitled are only "
+                             f"{_names(exp.contained, name_of)}", pfx))
+                failed = True
+            loose = {h for h in have & exp.contained
+                     if stored[h].previous_token_hash != exp.genesis and stored[h].previous_token_hash not in have}
+            if loose:
+                failed = True
+                viol.append(("persisted-tree-holds-unconnected-token:" + "+".join(sorted({cls_of[h] for h in loose})),
+                             head + f"after offering {hist}, a fresh PseudonymManager on the same database has "
+                             f"tree.elements = {_names(have, name_of)}: {_names(loose, name_of)} has no path to genesis "
+                             f"there (get_root_path: {[bool(again.tree.get_root_path(stored[h])) for h in sorted(loose)]}"
+                             f"); the live tree held {_names(pm.tree.elements.keys(), name_of)}", pfx))
+            missing = exp.contained - have
+            if missing and exp.max_waiting <= cap and not incomplete:
+                incomplete = True
+                first: dict = {}
+                for j, h in enumerate(exp.hashes):
+                    first.setdefault(h, j)
+                woken = all(exp.valid[m] != exp.genesis and
+                            first[m] < max(first[a] for a in exp.ancestors(exp.valid[m]))
+                            for m in missing if exp.valid[m] == exp.genesis or exp.valid[m] in have)
+                viol.append(("persisted-tree-lacks-connected-token:" + ("chained-in-after-waiting" if woken else "other"),
+                             head + f"after offering {hist}, a fresh PseudonymManager on the same database has "
+                             f"tree.elements = {_names(have, name_of)} and lacks {_names(missing, name_of)}, which the "
+                             f"live tree holds ({_names(pm.tree.elements.keys(), name_of)}) and which are signed and "
+                             "connected", pfx))
+            for h, t in stored.items():
+                if t.content is not None and sha3_256(t.content).digest() != t.content_hash:
+                    failed = True
+                    viol.append(("wrong-content-attached:persisted", head + f"after {hist}, reloaded "
+                                 f"{name_of.get(h)} carries {t.content!r}", pfx))
+    finally:
+        db.close()
+    tr = ("persist", cap, tuple(sorted(o.cls for o in offered if o.cls != "tree")), tuple(trace))
+    return {"viol": viol, "outcome": None, "trace": tr, "nontrivial": waited > 0 or len(items) > len(scn["parents"]),
+            "stats": {"waited": waited, "content_attached": 0, "correct_content_refused": 0}, "overflow": False}
+
+
+# ------------------------------------------------------------------------------------------------
+# depth family: one long chain (plus a one-token side branch) around the depth constants of tree.py
+# (verify / get_root_path maxdepth = 1000, unchained_max_size = 100)
+# ------------------------------------------------------------------------------------------------
+
+def evaluate_depth(scn: dict) -> dict:
+    L, curve = scn["length"], scn["curve"]
+    sk = fixtures.private_key(scn["owner"], curve)
+    pub = sk.pub()
+    chunk = 64 + pub.get_signature_length()
+    scratch = TokenTree(private_key=sk)
+    toks: list = []
+    last = None
+    for i in range(L):
+        last = scratch.add(b"c16 deep %d" % i, last)
+        toks.append(last)
+    side = scratch.add(b"c16 side branch", toks[0])
+    wires = [t.get_plaintext_signed() for t in toks]
+    chain = [sha3_256(w).digest() for w in wires]                    # root .. tip
+    side_h = sha3_256(side.get_plaintext_signed()).digest()
+    want_path = chain[::-1]                                          # tip .. root
+    viol: list = []
+    ops = 0
+    stats: dict = {}
+    head = f"chain of {L} tokens ({curve}) with a one-token side branch: "
+    rp = {"check": "depth", "scenario": scn}
+
+    def bad(key: str, what: str) -> None:
+        viol.append((key, head + what, rp))
+
+    def hashes_of(data: bytes) -> list:
+        return [sha3_256(data[i:i + chunk]).digest() for i in range(0, len(data), chunk)]
+
+    viewer = TokenTree(public_key=pub)
+    for w in [*wires, side.get_plaintext_signed()]:
+        viewer.gather_token(Token.unserialize(w, pub))
+    ops += 1
+    if set(viewer.elements.keys()) != set(chain) | {side_h}:
+        bad("depth:elements-mismatch", f"a viewer offered the tokens root-first holds {len(viewer.elements)} of {L + 1}")
+        return {"viol": viol, "ops": ops, "trace": ("depth", L, curve, "viewer-broken"), "stats": stats}
+    tip = viewer.elements[chain[-1]]
+
+    part = None
+    for who, tr in (("owner", scratch), ("viewer", viewer)):
+        ops += 1
+        try:
+            data = tr.serialize_public(up_to=tr.elements[chain[-1]])
+        except Exception as e:  # noqa: BLE001
+            bad(f"exception:serialize_public:{type(e).__name__}", f"{who}.serialize_public(up_to=tip): {e}")
+            continue
+        if hashes_of(data) != want_path or len(data) != L * chunk:
+            bad("depth:dump-up_to-wrong", f"{who}.serialize_public(up_to=tip) is {len(data)} bytes = "
+                f"{len(data) / chunk:g} tokens; the branch of the tip has {L}")
+        elif who == "viewer":
+            part = data
+    if part is not None:
+        ops += 1
+        fresh = TokenTree(public_key=pub)
+        root_first = b"".join(part[i:i + chunk] for i in range(len(part) - chunk, -1, -chunk))
+        try:
+            ok = fresh.unserialize_public(root_first)
+        except Exception as e:  # noqa: BLE001
+            ok = f"raised {type(e).__name__}"
+        if set(fresh.elements.keys()) != set(chain):
+            bad("depth:reload-differs:up_to", f"the branch dump handed over root-first reloads to "
+                f"{len(fresh.elements)} of {L} tokens")
+        elif ok is not True:
+            bad("depth:reload-not-confirmed:up_to", f"reloading the branch dump root-first gave {ok!r}")
+        if L - 1 <= 2 * viewer.unchained_max_size + 2:
+            # as dumped (tip first): everything but the root has to wait; complete only while L - 1 fits the area
+            ops += 1
+            fresh = TokenTree(public_key=pub)
+            try:
+                fresh.unserialize_public(part)
+            except Exception as e:  # noqa: BLE001
+                bad(f"exception:unserialize_public:whole-chunks:{type(e).__name__}", f"tip-first reload: {e}")
+            got = set(fresh.elements.keys())
+            closed = all(t.previous_token_hash == fresh.genesis_hash or t.previous_token_hash in got
+                         for t in fresh.elements.values())
+            if not got <= set(chain) or not closed:
+                bad("depth:reload-unsafe:up_to-tip-first", f"tip-first reload holds {len(got)} tokens, not a connected "
+                    "part of the branch")
+            elif L - 1 <= fresh.unchained_max_size and got != set(chain):
+                bad("depth:reload-differs:up_to-tip-first", f"tip-first reload holds {len(got)} of {L} tokens although "
+                    f"only {L - 1} <= {fresh.unchained_max_size} tokens had to wait")
+            stats[f"tip_first_reload_L{L}"] = len(got)
+    ops += 1
+    full = viewer.serialize_public()
+    fresh = TokenTree(public_key=pub)
+    try:
+        ok = fresh.unserialize_public(full)
+    except Exception as e:  # noqa: BLE001
+        ok = f"raised {type(e).__name__}"
+    if set(fresh.elements.keys()) != set(viewer.elements.keys()) or ok is not True:
+        bad("depth:reload-differs:dump-order", f"the full dump reloads to {len(fresh.elements)} of {L + 1} tokens "
+            f"(returned {ok!r})")
+
+    # root path / verify with an explicit bound above the depth, and with the default bound where it is documented
+    # to suffice (fewer than maxdepth = 1000 steps, i.e. L <= 1000); beyond that the documented answer is [] / False
+    ops += 2
+    big = L + 5
+    if [_th(t) for t in viewer.get_root_path(tip, maxdepth=big)] != want_path:
+        bad("depth:root-path-wrong:explicit-bound", f"get_root_path(tip, maxdepth={big}) is not the chain to genesis")
+    if not viewer.verify(tip, maxdepth=big):
+        bad("depth:verify-denies-contained:explicit-bound", f"verify(tip, maxdepth={big}) is False")
+    d_path, d_ver = viewer.get_root_path(tip), viewer.verify(tip)
+    stats[f"default_maxdepth_L{L}"] = [len(d_path), bool(d_ver)]
+    if L <= 1000:
+        if [_th(t) for t in d_path] != want_path:
+            bad("depth:root-path-wrong:default-bound", f"get_root_path(tip) has {len(d_path)} tokens")
+        if not d_ver:
+            bad("depth:verify-denies-contained:default-bound", "verify(tip) is False")
+    elif d_path and [_th(t) for t in d_path] != want_path:
+        bad("depth:root-path-wrong:default-bound", f"get_root_path(tip) returned {len(d_path)} tokens that are not the chain")
+    ops += 1
+    forged = Token.unserialize(wires[-1][:-1] + bytes([wires[-1][-1] ^ 1]), pub)
+    if viewer.verify(forged, maxdepth=big) or viewer.get_root_path(forged, maxdepth=big):
+        bad("depth:reports-unentitled:badsig", "verify/get_root_path accept a forged copy of the tip")
+    trace = ("depth", L, curve, repr(sorted(stats.items())), len(viol))
+    return {"viol": viol, "ops": ops, "trace": trace, "stats": stats}
+
+
+# ------------------------------------------------------------------------------------------------
 # work items (forked workers inherit SCENARIOS and the material cache)
 # ------------------------------------------------------------------------------------------------
 
@@ -715,12 +939,23 @@ def _work(chunk: list) -> list:
                     rank = (len(scn["parents"]), sid, m)
                     if key not in res["viol"] or rank < res["viol"][key][0]:
                         res["viol"][key] = (rank, what, rp)
+        elif scn["family"] == "depth":
+            r = evaluate_depth(scn)
+            res["evals"] += r["ops"]
+            res["nontrivial"] += r["ops"]
+            res["traces"].add(r["trace"])
+            res["depth_stats"] = r["stats"]
+            for key, what, rp in r["viol"]:
+                rank = (scn["length"], sid, 0)
+                if key not in res["viol"] or rank < res["viol"][key][0]:
+                    res["viol"][key] = (rank, what, rp)
         else:
             _, lo, hi = w
             _, items = scenario_items(scn)
+            persist = scn["family"].startswith("persist")
             for pi, perm in enumerate(_nth_perms(len(items), lo, hi), start=lo):
                 order = list(perm)
-                r = evaluate(scn, order, memo)
+                r = (evaluate_persist if persist else evaluate)(scn, order, memo)
                 res["evals"] += 1
                 res["overflow"] += r["overflow"]
                 res["waited"] += r["stats"]["waited"] > 0
@@ -735,7 +970,8 @@ def _work(chunk: list) -> list:
                 for key, what, pre in r["viol"]:
                     rank = (len(pre), len(items), sid, pi)
                     if key not in res["viol"] or rank < res["viol"][key][0]:
-                        res["viol"][key] = (rank, what, {"check": "single", "scenario": scn, "order": pre})
+                        res["viol"][key] = (rank, what, {"check": "persist" if persist else "single",
+                                                         "scenario": scn, "order": pre})
         out.append(res)
     return out
 
@@ -862,6 +1098,32 @@ def build_scenarios(ctx: core.Ctx) -> tuple[list[dict], dict]:
                     scns.append(scenario("twin", curve, o2, f2, p, [e]))
                     if e[2] == "":
                         scns.append(scenario("twin-wire", curve, o2, f2, p, [e], via="wire"))
+    # P: persistence round trip (PseudonymManager.add_credential -> IdentityDatabase -> fresh PseudonymManager),
+    # reloaded after every arrival of every order
+    b["persist"] = {"labelled_n_max": 5 if T else 4, "unlabelled_n_max": 6 if T else 5,
+                    "one_intruder_n_max": 4 if T else 3, "two_token_intruders_n_max": 3 if T else 2,
+                    "database": "real IdentityDatabase(':memory:'), shared by the live and the reloaded manager"}
+    for p in shapes(b["persist"]["labelled_n_max"], b["persist"]["unlabelled_n_max"]):
+        scns.append(scenario("persist", cv, owner, foreign, p))
+    for n in range(1, b["persist"]["one_intruder_n_max"] + 1):
+        for p in unlabelled_shapes(n):
+            for e in extras_for(p):
+                if (e[0], e[2]) in TWO_ITEM and n > b["persist"]["two_token_intruders_n_max"]:
+                    continue
+                scns.append(scenario("persist-intruder", cv, owner, foreign, p, [e]))
+    # Z: depth boundaries (single long chains; constants in tree.py: maxdepth = 1000, unchained_max_size = 100)
+    b["depth"] = {"chain_lengths": ([1, 2, 100, 101, 102, 998, 999, 1000, 1001, 1002, 1003, 1500, 2000] if T else
+                                    [1, 2, 100, 101, 102, 999, 1000, 1001, 1002]),
+                  "other_curve": {"very-low": [1000, 1001]} if T else {}}
+    for L in b["depth"]["chain_lengths"]:
+        sc = scenario("depth", cv, owner, foreign, ())
+        sc["length"] = L
+        scns.append(sc)
+    for curve, lengths in b["depth"]["other_curve"].items():
+        for L in lengths:
+            sc = scenario("depth", curve, fixtures.rotate(ctx.seed, 2, curve)[0], 0, ())
+            sc["length"] = L
+            scns.append(sc)
     # H: bytes
     b["bytes"] = {"labelled_n_max": 3, "substituted_values_per_byte": 255 if T else 9,
                   "other_curve_n_max": 2 if T else 1}
@@ -874,12 +1136,16 @@ def build_scenarios(ctx: core.Ctx) -> tuple[list[dict], dict]:
         s = scenario("bytes", "very-low", o2, f2, p, via="wire")
         s["all_values"] = T
         scns.append(s)
+    scns.sort(key=lambda sc: sc["family"] != "depth")      # stable: the few long-running items start first
     return scns, b
 
 
 def work_items(scns: list[dict]) -> list[tuple]:
     items: list = []
     for sid, scn in enumerate(scns):
+        if scn["family"] == "depth":
+            items.append((sid, 0, 1))
+            continue
         mat, its = scenario_items(scn)     # builds (and caches) all key material before the workers are forked
         if scn["family"] == "bytes":
             nvals = 255 if scn.get("all_values") else 9
@@ -905,6 +1171,7 @@ def run(ctx: core.Ctx) -> core.Report:
     viol: dict = {}
     outcomes: dict = {}
     exc: dict = {}
+    depth_obs: dict = {}
     tot = {"evals": 0, "nontrivial": 0, "overflow": 0, "reloads": 0, "content_attached": 0,
            "correct_content_refused": 0, "waited": 0}
     for r in results:
@@ -916,6 +1183,7 @@ def run(ctx: core.Ctx) -> core.Report:
         for k in tot:
             tot[k] += r[k]
         traces |= r["traces"]
+        depth_obs.update(r.get("depth_stats", {}))
         for k, n in r["exc"].items():
             exc[k] = exc.get(k, 0) + n
         for key, (rank, what, rp) in r["viol"].items():
@@ -982,6 +1250,7 @@ def run(ctx: core.Ctx) -> core.Report:
         "content_attached_total": tot["content_attached"],
         "correct_content_refused": tot["correct_content_refused"],
         "exceptions_accepted_as_rejection_of_truncated_input": exc,
+        "depth_observations": {k: depth_obs[k] for k in sorted(depth_obs)},
         "keys": {"curve": "curve25519", "owner": fixtures.rotate(ctx.seed, 2)[0],
                  "foreign": fixtures.rotate(ctx.seed, 2)[1]},
     }
@@ -996,6 +1265,12 @@ def run(ctx: core.Ctx) -> core.Report:
         "A correct content offer being refused is counted (correct_content_refused), not flagged: the statement says "
         "'only if'",
         "The 'random larger trees' clause of the quantifier is sampling and is not implemented",
+        "Depth: verify/get_root_path with the default maxdepth (1000) are only required to succeed for chains of at most "
+        "1000 tokens (documented bound); beyond it they are asked with an explicit larger bound, and the default answer "
+        "is recorded in depth_observations, not flagged. A tip-first (as dumped) reload of a branch is only required to be "
+        "complete while all but the root fit the waiting area (100).",
+        "Persistence: the Tokens table is keyed by (public key, previous hash, content hash), so the persistence family "
+        "runs with deterministic-signature keys only (twins of an ECDSA key would collapse into one row; not flagged).",
     ]
     return core.Report(LEVEL, cov, violations, assumptions)
 
@@ -1009,6 +1284,10 @@ def replay(ctx: core.Ctx, data: dict) -> list:
     scn = data["scenario"]
     if data["check"] == "bytes":
         return [core.Violation(k, what) for k, what, _ in evaluate_bytes(scn, data["mutation"])["viol"]]
+    if data["check"] == "depth":
+        return [core.Violation(k, what) for k, what, _ in evaluate_depth(scn)["viol"]]
+    if data["check"] == "persist":
+        return [core.Violation(k, what) for k, what, _ in evaluate_persist(scn, list(data["order"]))["viol"]]
     if data["check"] == "single":
         return [core.Violation(k, what) for k, what, _ in evaluate(scn, list(data["order"]))["viol"]]
     r1 = evaluate(scn, list(data["orders"][0]))
